@@ -927,6 +927,55 @@ def read_ps(docs, psdocs):
     return L
 
 
+# ------------------------------------------------------------------------------------------- readPhaseSpace: the object read into
+
+def read_ps_object(docs):
+    """(st2h5) how readPhaseSpace gets the object whose grid it fills: ONE construction of a PhaseSpace (make_unique /
+    make_shared / new), whether the constructor's last parameter (`data`: start values) is passed - it is not: the object
+    is the constructor's own Gaussian start distribution with its cached projections and charges - and how many member
+    functions other than getData() are called on it before it is returned (none: the caches stay the constructor's)."""
+    d = body = None
+    for x in docs:
+        if x.get("kind") == "CXXMethodDecl" and x.get("name") == "readPhaseSpace":
+            for c in x.get("inner", []):
+                if c.get("kind") == "CompoundStmt":
+                    d, body = x, c
+    if body is None:
+        raise TranslateError("definition of readPhaseSpace not found")
+    cons = []
+    for s in kids(body):
+        if s.get("kind") != "DeclStmt":
+            continue
+        for v in kids(s):
+            if v.get("kind") != "VarDecl":
+                continue
+            for m in walk(v):
+                q = qtype(m)
+                if m.get("kind") == "CallExpr" and refname(unwrap(kids(m)[0])) in ("make_unique", "make_shared") and "PhaseSpace" in q:
+                    cons.append((v, [a for a in kids(m)[1:] if a.get("kind") != "CXXDefaultArgExpr"]))
+                elif m.get("kind") == "CXXNewExpr" and "PhaseSpace" in q:
+                    ce = [c for c in kids(m) if c.get("kind") == "CXXConstructExpr"]
+                    if len(ce) == 1:
+                        cons.append((v, [a for a in kids(ce[0]) if a.get("kind") != "CXXDefaultArgExpr"]))
+    if len(cons) != 1:
+        raise TranslateError("readPhaseSpace: expected one construction of the PhaseSpace that is read into, found %d" % len(cons))
+    var, args = cons[0]
+    # the constructor that takes the axis extents has 12 parameters, the last one the start data
+    nargs = len(args)
+    if nargs not in (9, 10, 11, 12):
+        raise TranslateError("readPhaseSpace: the PhaseSpace is constructed with %d arguments" % nargs)
+    other = 0
+    for m in walk(body):
+        if m.get("kind") == "CXXMemberCallExpr" and kids(m)[0].get("kind") == "MemberExpr":
+            me = kids(m)[0]
+            refs = [x for x in walk(me) if x.get("kind") == "DeclRefExpr" and (x.get("referencedDecl") or {}).get("id") == var.get("id")]
+            if refs and me.get("name") not in ("getData", "get", "operator->"):
+                other += 1
+    return ["(* readPhaseSpace: the object the record is read into is constructed with start data? other member calls on it? *)",
+            "Definition gen_read_ctor_passes_data : bool := %s." % ("true" if nargs == 12 else "false"),
+            "Definition gen_read_object_other_calls : Z := %d." % other]
+
+
 # ------------------------------------------------------------------------------------------- main(): grid size refusal
 def main_refusal():
     docs = ast_of("src/main.cpp", "main")
@@ -980,6 +1029,7 @@ def translate():
     out += appends(docs, member_ds, ps_accessors(psdocs))
     out += read_ps(docs, psdocs)
     out += main_refusal()
+    out += read_ps_object(docs)
     return "\n".join(out) + "\n"
 
 
